@@ -232,6 +232,64 @@ def case_ops(run_dir, case):
     return ops
 
 
+CREATING = ("case", "item", "newtable", "wrap", "rewrap", "newvia", "autonew", "autowrap", "addheaders", "addrowitems",
+            "newrow", "newrowsized", "zerorow", "appendnewrow", "addsep", "copycell", "colhandle", "ecnew", "prender",
+            "autorender", "register")
+
+
+def _replay_diff(stream, ops, d):
+    """Run ops on the real library and the model; return (index of first differing op or None, go line, lean line)."""
+    open(os.path.join(d, "ops.txt"), "w").write("\n".join(ops) + "\n")
+    rc, out = sh([os.path.join(WORK, "harness"), "-mode", "replay", "-in", os.path.join(d, "ops.txt"), "-out", d], env=GOENV, timeout=120)
+    if rc != 0:
+        return None, "", "", ""
+    with open(os.path.join(d, "lean.in"), "rb") as fin, open(os.path.join(d, "lean.out"), "wb") as fout:
+        subprocess.run([os.path.join(LEAN, ".lake", "build", "bin", "driver")], stdin=fin, stdout=fout, timeout=120)
+    norm = lambda t: re.sub(r"(res2?=err):[^ ]*", r"\1", t)
+    go = norm(open(os.path.join(d, "go.out"), errors="replace").read()).split("\n")
+    le = norm(open(os.path.join(d, "lean.out"), errors="replace").read()).split("\n")
+    lin = open(os.path.join(d, "lean.in"), errors="replace").read().split("\n")
+    for i, (a, b) in enumerate(zip(go, le)):
+        if a != b:
+            return i, a, b, lin[i] if i < len(lin) else ""
+    return None, "", "", ""
+
+
+def shrink_ops(stream, ops):
+    """Delta-shrink a diverging case: cut everything after the first differing op, then drop every
+    op that creates no object and whose removal keeps the same op diverging. Returns (ops, difference) or None."""
+    d = os.path.join(WORK, "shrink-%d" % os.getpid())
+    shutil.rmtree(d, ignore_errors=True); os.makedirs(d)
+    try:
+        r = _replay_diff(stream, ops, d)
+        if r[0] is None:
+            return None
+        # map the differing lean.in line back to an op: replay op by op is costly, so bisect on prefixes
+        lo, hi = 1, len(ops)
+        while lo < hi:
+            mid = (lo + hi) // 2
+            if _replay_diff(stream, ops[:mid], d)[0] is not None:
+                hi = mid
+            else:
+                lo = mid + 1
+        ops = ops[:lo]
+        target = ops[-1]
+        i = len(ops) - 2
+        budget = 150
+        while i >= 1 and budget > 0:
+            if ops[i].split(" ")[0] not in CREATING:
+                cand = ops[:i] + ops[i + 1:]
+                budget -= 1
+                rr = _replay_diff(stream, cand, d)
+                if rr[0] is not None and cand[-1] == target and rr[3].split(" ")[0] == target.split(" ")[0]:
+                    ops = cand
+            i -= 1
+        rr = _replay_diff(stream, ops, d)
+        return ops, {"op": rr[3][:2000], "go": rr[1][:4000], "lean": rr[2][:4000]}
+    finally:
+        shutil.rmtree(d, ignore_errors=True)
+
+
 def load_known():
     p = os.path.join(VERIF, "known_findings.json")
     return json.load(open(p)) if os.path.exists(p) else {"findings": []}
@@ -350,8 +408,25 @@ def main(argv):
         have_driver = os.path.exists(os.path.join(LEAN, ".lake", "build", "bin", "driver"))
 
     runs = []
+    exhaustive_info = []
     if ok_h and have_driver:
         mult = cfg.get("thorough_mult", 10) if tier == "thorough" else 1
+        for (stream, nq, nt) in cfg.get("exhaustive", []):
+            # enumerated streams: the case number indexes the space; seeds are irrelevant
+            total = nt if tier == "thorough" else nq
+            if tier == "thorough" and total > 40000:
+                import concurrent.futures as cf
+                parts = 8
+                step = (total + parts - 1) // parts
+                with cf.ThreadPoolExecutor(max_workers=parts) as ex:
+                    futs = [ex.submit(run_stream, pid, stream, seed, min(step, total - k * step), k * step, "%s-p%d" % (stream, k)) for k in range(parts) if k * step < total]
+                    rs = [f.result() for f in futs]
+            else:
+                rs = [run_stream(pid, stream, seed, total, 0, stream)]
+            for r in rs:
+                r["exhaustive"] = True
+            runs += rs
+            exhaustive_info.append({"stream": stream, "cases": total})
         for (stream, n) in cfg["streams"]:
             if tier == "thorough":
                 # several seeds, in parallel processes
@@ -413,8 +488,16 @@ def main(argv):
         status = 1
     if violations:
         r, v = violations[0]
-        p = write_replay(pid, "oracle", {"stream": r["stream"], "seed": r["seed"], "case": v["case"],
-                                         "what": v["violations"][:10], "ops": case_ops(r["dir"], v["case"])})
+        full = case_ops(r["dir"], v["case"])
+        det = {"stream": r["stream"], "seed": r["seed"], "case": v["case"], "what": v["violations"][:10], "ops": full}
+        try:
+            sh_res = shrink_ops(r["stream"], full) if os.environ.get("VERIF_NOSHRINK") != "1" else None
+            if sh_res:
+                det["ops_shrunk"] = sh_res[0]
+                det["model_vs_implementation"] = sh_res[1]
+        except Exception as e:  # shrinking is a convenience, never a reason to fail differently
+            det["shrink_error"] = str(e)
+        p = write_replay(pid, "oracle", det)
         out_lines.append("VIOLATION property=%s replay=%s" % (pid, os.path.relpath(p, VERIF)))
         status = 1
     elif divergences or broken:
@@ -479,6 +562,7 @@ def main(argv):
             "samples": samples[:3] or [["(no cases generated)"]],
             "broken_obligations": [b[0] for b in broken],
             "race_validation": race_info,
+            "exhaustive_enumerations": exhaustive_info,
             "steps": [{"step": s, "rc": rc, "note": note[:300]} for (s, rc, note) in log],
         },
         "assumptions": cfg.get("assumptions", []),
